@@ -113,7 +113,7 @@ def listing(root, table):
 
 def cli(argv, subprocess_mode=False, cwd=None):
     if subprocess_mode:
-        env = dict(os.environ, PYTHONPATH='/repo', PYTHONWARNINGS='ignore')
+        env = dict(os.environ, PYTHONPATH=os.environ.get('VERIF_REPO', '/repo'), PYTHONWARNINGS='ignore')
         p = subprocess.run([sys.executable, '-m', 'kernpy'] + argv, cwd=cwd, env=env, stdout=subprocess.PIPE, stderr=subprocess.PIPE)
         return p.returncode == 0
     import kernpy.__main__ as km
